@@ -27,7 +27,22 @@ using namespace vt;
 using bpp::GlobalGraph;
 using bpp::Graph;
 
+// bpp::Exception symbolises a stack trace in its constructor (backtrace +
+// backtrace_symbols + demangling: 32 us per throw), and a full projection
+// provokes dozens of throws.  The trace text is never looked at, so the
+// executable interposes the two glibc functions with empty ones (2 us per
+// throw).  Nothing of the library under test is changed.
+extern "C" int backtrace(void**, int) { return 0; }
+extern "C" char** backtrace_symbols(void* const*, int) { return static_cast<char**>(malloc(sizeof(char*))); }
+
 typedef bpp::AssociationGlobalGraphObserver<std::string, unsigned int> Obs;
+// a second instantiation, to go through the converting copy constructor (there and back)
+struct DStr : std::string
+{
+  DStr(const std::string& s) : std::string(s) {}
+  DStr(const DStr& s) : std::string(s) {}
+};
+typedef bpp::AssociationGlobalGraphObserver<DStr, unsigned long> ObsB;
 typedef std::shared_ptr<std::string> NP;
 typedef std::shared_ptr<unsigned int> EP;
 typedef std::vector<long> LV;
@@ -106,26 +121,66 @@ template<class F> static bool raises(F f)
   }
 }
 
-class World
+// one side = one graph with its observers and the names the driver gave their objects
+struct SideData
 {
-public:
   std::unique_ptr<Obs> o[3];
   std::shared_ptr<GlobalGraph> g;
   std::map<const void*, long> nreg, ereg; // pointer -> object id
   std::map<long, NP> nobj;                // object id -> object
   std::map<long, EP> eobj;
+  long hwN, hwE;
+  bool isClone;
+  SideData() : g(), nreg(), ereg(), nobj(), eobj(), hwN(0), hwE(0), isClone(false) {}
+  void swapWith(SideData& x)
+  {
+    for (int i = 0; i < 3; ++i) o[i].swap(x.o[i]);
+    g.swap(x.g);
+    nreg.swap(x.nreg);
+    ereg.swap(x.ereg);
+    nobj.swap(x.nobj);
+    eobj.swap(x.eobj);
+    std::swap(hwN, x.hwN);
+    std::swap(hwE, x.hwE);
+    std::swap(isClone, x.isClone);
+  }
+};
+
+class World : public SideData
+{
+public:
+  std::unique_ptr<SideData> oth; // the other side (a copy of the graph, or the original while the copy is active)
   std::vector<NP> nkeep; // every object ever seen stays alive: addresses are never reused
   std::vector<EP> ekeep;
-  long hwN, hwE, unknown;
+  std::map<const void*, long> ghostN, ghostE;
+  std::map<long, NP> ghostNP;
+  std::map<long, EP> ghostEP;
+  long unknown;
   bool logging;
-  bool full; // full projection (every query, also the ones that must raise) or only the maps
+  bool full;         // full projection (every query, also the ones that must raise) or only the maps
+  bool lightOnRaise; // enumeration: calls that raise are collected into one RaiseBatch event (maps only)
+  bool lastRaised;
+  Arr pendingOps;    // the raising calls since the last event
+  long pendingCount;
+  std::string pendingProj; // the (light) projection after the last of them
 
-  explicit World(bool directed) : g(), nreg(), ereg(), nobj(), eobj(), nkeep(), ekeep(), hwN(0), hwE(0), unknown(9000), logging(true), full(true)
+  explicit World(bool directed) : SideData(), oth(), nkeep(), ekeep(), ghostN(), ghostE(), ghostNP(), ghostEP(), unknown(9000), logging(true), full(true), lightOnRaise(false), lastRaised(false), pendingOps(), pendingCount(0), pendingProj()
   {
     o[1].reset(new Obs(directed));
     g = o[1]->getGraph();
   }
+  ~World()
+  {
+    // observers before graphs, the copy before the original
+    if (oth)
+    {
+      oth->o[2].reset();
+      oth->o[1].reset();
+    }
+    oth.reset();
+  }
   bool has(int k) const { return k >= 1 && k <= 2 && o[k]; }
+  int maxAlive() const { return o[2] ? 2 : (o[1] ? 1 : 0); }
 
   // ---- objects
   NP N(long id)
@@ -154,6 +209,8 @@ public:
     if (!p) return NONE;
     auto it = nreg.find(p.get());
     if (it != nreg.end()) return it->second;
+    it = ghostN.find(p.get());
+    if (it != ghostN.end()) return it->second;
     long id = unknown++;
     try
     {
@@ -173,6 +230,8 @@ public:
     if (!p) return NONE;
     auto it = ereg.find(p.get());
     if (it != ereg.end()) return it->second;
+    it = ghostE.find(p.get());
+    if (it != ghostE.end()) return it->second;
     long id = unknown++;
     long lab = static_cast<long>(*p);
     long cand = (k - 1) * 1000 + lab;
@@ -182,12 +241,18 @@ public:
     ekeep.push_back(p);
     return id;
   }
+  // the objects of a destroyed or overwritten observer k lose their names but stay known as
+  // "ghosts" (ids >= 9000, one registry for both sides): every later projection still asks
+  // every observer about them
   void forgetObjectsOf(int k)
   {
     for (auto it = nobj.begin(); it != nobj.end();)
       if (it->first / 1000 == k - 1 && it->first < 9000)
       {
         nreg.erase(it->second.get());
+        long id = unknown++;
+        ghostN[it->second.get()] = id;
+        ghostNP[id] = it->second;
         it = nobj.erase(it);
       }
       else ++it;
@@ -195,6 +260,9 @@ public:
       if (it->first / 1000 == k - 1 && it->first < 9000)
       {
         ereg.erase(it->second.get());
+        long id = unknown++;
+        ghostE[it->second.get()] = id;
+        ghostEP[id] = it->second;
         it = eobj.erase(it);
       }
       else ++it;
@@ -302,6 +370,12 @@ public:
       std::set<Graph::NodeId> st = cg.getSetOfAllLeaves();
       return LV(st.begin(), st.end());
     })));
+    s.kv("inner", arr(tryList([&]() { return sortedLV(cg.getAllInnerNodes()); })));
+    Arr lf;
+    for (long nl : nodes)
+      for (unsigned int d = 0; d <= 3; ++d)
+        lf.add(Arr().add(nl).add(static_cast<long>(d)).add(arr(tryList([&]() { return sortedLV(cg.getLeavesFromNode(static_cast<Graph::NodeId>(nl), d)); }))));
+    s.kv("lf", lf);
     Arr nt;
     for (long nl : nodes)
     {
@@ -421,9 +495,11 @@ public:
     std::vector<std::pair<long, NP>> nknown;
     for (const auto& it : nobj)
       if (it.first / 1000 == k - 1 || it.first >= 9000) nknown.push_back(it);
+    for (const auto& it : ghostNP) nknown.push_back(it);
     std::vector<std::pair<long, EP>> eknown;
     for (const auto& it : eobj)
       if (it.first / 1000 == k - 1 || it.first >= 9000) eknown.push_back(it);
+    for (const auto& it : ghostEP) eknown.push_back(it);
     for (const auto& it : nknown)
     {
       const NP& p = it.second;
@@ -487,6 +563,50 @@ public:
     w.kv("nl", tryVal([&]() { return c.getNumberOfLeaves(); }));
     w.kv("idxs", arr(tryList([&]() { return sortedLV(c.getAllNodesIndexes()); })));
     w.kv("eidxs", arr(tryList([&]() { return sortedLV(c.getAllEdgesIndexes()); })));
+    w.kv("inner", arr(tryList([&]() { return nids(c.getAllInnerNodes(), k); })));
+    w.kv("lvidx", arr(tryList([&]() { return sortedLV(c.getAllLeavesIndexes()); })));
+    w.kv("inneridx", arr(tryList([&]() { return sortedLV(c.getAllInnerNodesIndexes()); })));
+    {
+      Arr lf;
+      for (const NP& p : all)
+        for (unsigned int d = 1; d <= 3; d += 2)
+          lf.add(Arr().add(nid(p, k)).add(static_cast<long>(d)).add(arr(tryList([&]() { return nids(c.getLeavesFromNode(p, d), k); }))));
+      w.kv("lf", lf);
+      // the list queries keyed by node index
+      Arr ix;
+      for (long i = 0; i <= IMAX; ++i)
+      {
+        unsigned int ui = static_cast<unsigned int>(i);
+        if (!c.hasNode(ui)) continue;
+        NP p;
+        try
+        {
+          p = c.getNode(ui);
+        }
+        catch (...)
+        {}
+        if (!p || !c.hasNode(p))
+        {
+          // an index whose object is not associated: the queries by index raise
+          absq += !raises([&]() { c.getNeighbors(ui); });
+          absq += !raises([&]() { c.getOutgoingEdges(ui); });
+          continue;
+        }
+        Obj r;
+        r.kv("i", i);
+        r.kv("nb", arr(tryList([&]() { return sortedLV(c.getNeighbors(ui)); })));
+        r.kv("on", arr(tryList([&]() { return sortedLV(c.getOutgoingNeighbors(ui)); })));
+        r.kv("in", arr(tryList([&]() { return sortedLV(c.getIncomingNeighbors(ui)); })));
+        r.kv("ed", arr(tryList([&]() { return sortedLV(c.getEdges(ui)); })));
+        r.kv("oe", arr(tryList([&]() { return sortedLV(c.getOutgoingEdges(ui)); })));
+        r.kv("ie", arr(tryList([&]() { return sortedLV(c.getIncomingEdges(ui)); })));
+        long lf2 = tryVal([&]() { return c.isLeaf(ui) ? 1 : 0; });
+        if (lf2 == RAISED) r.kv("leaf", lf2);
+        else r.kv("leaf", lf2 == 1);
+        ix.add(r.j());
+      }
+      w.kv("ix", ix);
+    }
     Arr nt;
     for (const NP& p : all)
     {
@@ -570,7 +690,7 @@ public:
     return w;
   }
 
-  Obj proj()
+  Obj projSide()
   {
     noteIds();
     Obj s = projGraph();
@@ -580,22 +700,65 @@ public:
     s.kv("obs", obs);
     return s;
   }
+  Obj proj()
+  {
+    Obj s = projSide();
+    Obj other;
+    if (oth)
+    {
+      // the maps of the other side, read through its own graph and observers
+      bool f = full;
+      full = false;
+      swapWith(*oth);
+      other = projSide();
+      swapWith(*oth);
+      full = f;
+      other.kv("has", true);
+    }
+    else other.kv("has", false);
+    s.kv("oth", other);
+    return s;
+  }
 
   void emit(const std::string& name, int k, const LV& a, const std::string& outc, const J& ret)
   {
+    lastRaised = outc.compare(0, 5, "raise") == 0;
     if (!logging) return;
+    if (lightOnRaise && lastRaised)
+    {
+      // collected: one event for the whole run of raising calls, with the maps read after the last one
+      pendingOps.add(Arr().add(name).add(k).add(arr(a)));
+      ++pendingCount;
+      bool f = full;
+      full = false;
+      pendingProj = proj().j().dump();
+      full = f;
+      return;
+    }
+    flushBatch();
     Obj ev;
     ev.kv("e", name).kv("k", k).kv("a", arr(a));
-    ev.kv("r", outc.compare(0, 5, "raise") == 0 ? "raise" : "ok").kv("x", outc).kv("ret", ret);
+    if (name == "Reset") ev.kv("load", false);
+    ev.kv("r", lastRaised ? "raise" : "ok").kv("x", outc).kv("ret", ret);
     ev.kv("s", proj());
     tracer().emit(ev);
   }
-  void emitLoad()
+  void flushBatch()
+  {
+    if (pendingCount == 0) return;
+    Obj ev;
+    ev.kv("e", "RaiseBatch").kv("k", 0).kv("a", Arr()).kv("r", "raise").kv("ops", pendingOps).kv("s", J::raw(pendingProj));
+    tracer().emit(ev);
+    pendingOps = Arr();
+    pendingCount = 0;
+    pendingProj.clear();
+  }
+  void emitLoad(bool directed0)
   {
     if (!logging) return;
     noteIds();
     Obj ev;
-    ev.kv("e", "Load").kv("k", 0).kv("a", Arr()).kv("r", "ok").kv("hw", Arr().add(hwN).add(hwE));
+    ev.kv("e", "Reset").kv("k", 0).kv("a", Arr().add(directed0 ? 1 : 0)).kv("r", "ok").kv("load", true).kv("hw", Arr().add(hwN).add(hwE));
     ev.kv("s", proj());
     tracer().emit(ev);
   }
@@ -635,6 +798,61 @@ public:
       r = outcome<bpp::Exception>([&]() { o[2].reset(new Obs(*o[1])); });
       k = 2;
     }
+    else if (e == "CopyConv")
+    {
+      // converting copy constructor, to another instantiation and back
+      r = outcome<bpp::Exception>([&]() {
+        ObsB b(*o[1]);
+        o[2].reset(new Obs(b));
+      });
+      k = 2;
+    }
+    else if (e == "Assign")
+    {
+      int dst = static_cast<int>(a[0]), src = static_cast<int>(a[1]);
+      r = outcome<bpp::Exception>([&]() { *o[dst] = *o[src]; });
+      if (dst != src) forgetObjectsOf(dst);
+      k = dst;
+    }
+    else if (e == "Attach")
+    {
+      r = outcome<bpp::Exception>([&]() { o[1].reset(new Obs(g)); });
+      k = 1;
+    }
+    else if (e == "Clone")
+    {
+      r = outcome<bpp::Exception>([&]() {
+        oth.reset(new SideData());
+        oth->g.reset(g->clone());
+        oth->hwN = hwN;
+        oth->hwE = hwE;
+        oth->isClone = true;
+      });
+      k = 0;
+    }
+    else if (e == "Swap")
+    {
+      swapWith(*oth);
+      r = "ok";
+      k = 0;
+    }
+    else if (e == "DropClone")
+    {
+      r = outcome<bpp::Exception>([&]() {
+        oth->o[2].reset();
+        oth->o[1].reset();
+        oth.reset();
+      });
+      k = 0;
+    }
+    else if (e == "AssignAcross")
+    {
+      int kk = static_cast<int>(a[0]);
+      r = outcome<bpp::Exception>([&]() { *o[kk] = *oth->o[1]; });
+      forgetObjectsOf(kk);
+      oth->o[2] = std::move(o[kk]);
+      k = kk;
+    }
     else if (e == "Drop")
     {
       r = outcome<bpp::Exception>([&]() { o[2].reset(); });
@@ -673,14 +891,21 @@ public:
 // ------------------------------------------------------------------ scenario plumbing
 static long g_scenarios = 0;
 
-static std::unique_ptr<World> startScenario(bool directed, bool logReset = true, bool fullReset = true)
+static void replaySilently(World& w, const std::vector<Op>& hist);
+
+// A scenario starts with a Reset event.  With a non-empty `hist` the history is replayed
+// silently first and the Reset event says "load": the state the scenario continues from.
+static std::unique_ptr<World> startScenario(bool directed, bool logReset = true, bool fullReset = true, const std::vector<Op>* hist = nullptr)
 {
   std::unique_ptr<World> w(new World(directed));
+  bool load = hist && !hist->empty();
+  if (load) replaySilently(*w, *hist);
   if (logReset)
   {
     ++g_scenarios;
     w->full = fullReset;
-    w->emit("Reset", 0, LV(1, directed ? 1 : 0), "ok", J::num(0));
+    if (load) w->emitLoad(directed);
+    else w->emit("Reset", 0, LV(1, directed ? 1 : 0), "ok", J::num(0));
     w->full = true;
   }
   return w;
@@ -739,8 +964,71 @@ static void randomScenario(Rng& rng, long len, long maxNodes)
   int idxMode = static_cast<int>(rng.below(3)); // 0 none, 1 explicit, 2 allocated (bias of the index calls)
   std::unique_ptr<World> wp = startScenario(directed);
   World& w = *wp;
+  bool copyHeavy = rng.chance(1, 3); // more copies, assignments and graph copies
   for (long step = 0; step < len; ++step)
   {
+    // calls that copy: observers (copy constructors, operator=), the graph itself, and moving between the two sides
+    if (rng.chance(copyHeavy ? 5 : 1, 40))
+    {
+      size_t c2 = rng.below(10);
+      if (c2 < 2)
+      {
+        if (w.has(1) && !w.has(2)) w.exec(Op(rng.coin() ? "Copy" : "CopyConv", 1, LV()));
+        else if (w.has(2)) w.exec(Op("Drop", 2, LV()));
+      }
+      else if (c2 < 4)
+      {
+        if (w.has(1) && w.has(2)) w.exec(Op("Assign", 0, rng.chance(1, 8) ? LV{1, 1} : (rng.coin() ? LV{1, 2} : LV{2, 1})));
+        else if (w.has(1) && !w.has(2)) w.exec(Op("Copy", 1, LV()));
+      }
+      else if (c2 < 6)
+      {
+        if (!w.oth) w.exec(Op("Clone", 0, LV()));
+        else if (!w.has(1)) w.exec(Op("Attach", 1, LV()));
+        else w.exec(Op("Swap", 0, LV()));
+      }
+      else if (c2 < 7)
+      {
+        if (w.oth) w.exec(Op("Swap", 0, LV()));
+      }
+      else if (c2 < 8)
+      {
+        if (w.oth && w.oth->isClone && rng.coin()) w.exec(Op("DropClone", 0, LV()));
+        else if (!w.has(1)) w.exec(Op("Attach", 1, LV()));
+      }
+      else
+      {
+        // an observer of this side is assigned from observer 1 of the other side and moves over
+        if (w.oth && w.maxAlive() > 0 && w.oth->o[1] && !w.oth->o[2]) w.exec(Op("AssignAcross", 0, LV{w.maxAlive()}));
+        else if (w.oth && w.maxAlive() > 0 && w.oth->o[1] && w.oth->o[2])
+        {
+          w.exec(Op("Swap", 0, LV()));
+          w.exec(Op("Drop", 2, LV()));
+          w.exec(Op("Swap", 0, LV()));
+        }
+        else if (!w.has(1)) w.exec(Op("Attach", 1, LV()));
+        else if (w.oth) w.exec(Op("Swap", 0, LV()));
+      }
+      continue;
+    }
+    if (!w.has(1))
+    {
+      // a graph without observer (fresh copy): graph-level calls only, or attach one
+      LV nodes0 = w.liveNodes(), edges0 = w.liveEdges();
+      size_t c0 = rng.below(8);
+      long n0 = (nodes0.empty() || rng.chance(1, 7)) ? w.absentNode() : nodes0[rng.below(nodes0.size())];
+      long e0 = (edges0.empty() || rng.chance(1, 7)) ? w.absentEdge() : edges0[rng.below(edges0.size())];
+      bool room0 = static_cast<long>(nodes0.size()) < maxNodes;
+      if (c0 == 0) w.exec(Op("Attach", 1, LV()));
+      else if (c0 == 1) { if (room0) w.exec(Op("GCreateNode", 0, LV())); }
+      else if (c0 == 2) { if (room0 || !contains(nodes0, n0)) w.exec(Op("GCreateNodeFromNode", 0, LV{n0})); }
+      else if (c0 == 3) { if (room0 || !contains(edges0, e0)) w.exec(Op("GCreateNodeOnEdge", 0, LV{e0})); }
+      else if (c0 == 4) w.exec(Op("GDeleteNode", 0, LV{n0}));
+      else if (c0 == 5) w.exec(Op("GLink", 0, LV{n0, nodes0.empty() ? w.absentNode() : nodes0[rng.below(nodes0.size())]}));
+      else if (c0 == 6) w.exec(Op("GUnlink", 0, LV{n0, nodes0.empty() ? w.absentNode() : nodes0[rng.below(nodes0.size())]}));
+      else w.exec(Op(rng.coin() ? "GMakeDirected" : "GMakeUndirected", 0, LV()));
+      continue;
+    }
     int k = (w.has(2) && rng.chance(1, 3)) ? 2 : 1;
     long base = (k - 1) * 1000;
     LV objs = assocNodeObjs(w, k);
@@ -802,7 +1090,6 @@ static void randomScenario(Rng& rng, long len, long maxNodes)
     else if (c < 40)
     {
       long a = anyObj(), b = anyObj();
-      if (a == b && !w.g->isDirected() && contains(objs, a)) continue; // self-loops in directed mode only
       w.exec(Op("OLink", k, LV{a, b, newEObj()}));
     }
     else if (c < 50)
@@ -840,7 +1127,6 @@ static void randomScenario(Rng& rng, long len, long maxNodes)
     else if (c < 71)
     {
       long a = anyNode(), b = anyNode();
-      if (a == b && !w.g->isDirected() && contains(nodes, a)) continue;
       w.exec(Op("GLink", 0, LV{a, b}));
     }
     else if (c < 73)
@@ -856,10 +1142,7 @@ static void randomScenario(Rng& rng, long len, long maxNodes)
     }
     else if (c < 75) w.exec(Op("GDeleteNode", 0, LV{anyNode()}));
     else if (c < 77) w.exec(Op("GMakeDirected", 0, LV()));
-    else if (c < 79)
-    {
-      if (!hasSelfLoop(w)) w.exec(Op("GMakeUndirected", 0, LV()));
-    }
+    else if (c < 79) w.exec(Op("GMakeUndirected", 0, LV()));
     else if (c < 82)
     {
       // associate an object to a node that has none (or to an absent / occupied one)
@@ -918,7 +1201,7 @@ static void randomScenario(Rng& rng, long len, long maxNodes)
     }
     else
     {
-      if (!w.has(2)) w.exec(Op("Copy", 1, LV()));
+      if (!w.has(2)) w.exec(Op(rng.coin() ? "Copy" : "CopyConv", 1, LV()));
       else w.exec(Op("Drop", 2, LV()));
     }
   }
@@ -1008,7 +1291,6 @@ static std::vector<Op> enumerateOps(World& w, const BfsCfg& cfg, long maxNodes)
   long X = freshLabel(objs, 0) + 40; // an object the observer does not know
   long newO = freshLabel(objs, 0);
   long newE = cfg.eobj ? freshLabel(eobjs, 0) : NONE;
-  bool dir = w.g->isDirected();
   LV objsX = objs;
   objsX.push_back(X);
   if (n < maxNodes)
@@ -1033,7 +1315,7 @@ static std::vector<Op> enumerateOps(World& w, const BfsCfg& cfg, long maxNodes)
   for (long a : objsX)
     for (long b : objsX)
     {
-      if (a != b || dir || a == X) ops.push_back(Op("OLink", 1, LV{a, b, newE}));
+      ops.push_back(Op("OLink", 1, LV{a, b, newE}));
       ops.push_back(Op("OUnlink", 1, LV{a, b}));
     }
   if (!eobjs.empty() && objs.size() >= 2) ops.push_back(Op("OLink", 1, LV{objs[0], objs[1], eobjs[0]})); // edge object in use: raise
@@ -1052,7 +1334,7 @@ static std::vector<Op> enumerateOps(World& w, const BfsCfg& cfg, long maxNodes)
     ops.push_back(Op("GUnlink", 0, LV{nodes[1], nodes[0]}));
   }
   ops.push_back(Op("GMakeDirected", 0, LV()));
-  if (!hasSelfLoop(w)) ops.push_back(Op("GMakeUndirected", 0, LV()));
+  ops.push_back(Op("GMakeUndirected", 0, LV()));
   // association / index calls on absent or occupied operands
   ops.push_back(Op("DissocNode", 1, LV{X}));
   ops.push_back(Op("DissocEdge", 1, LV{freshLabel(eobjs, 0) + 40}));
@@ -1101,31 +1383,47 @@ static long bfs(const BfsCfg& cfg, long depth, long maxNodes, long cap, long& st
     {
       std::vector<Op> ops;
       {
-        std::unique_ptr<World> w = startScenario(cfg.directed, false);
-        replaySilently(*w, hist);
+        std::unique_ptr<World> w = startScenario(cfg.directed, false, false, &hist);
         ops = enumerateOps(*w, cfg, maxNodes);
       }
+      // dry run: which calls raise in this state?  They leave the state alone, so they all go into
+      // one scenario (one RaiseBatch event with the maps, which show that nothing changed); every
+      // call that succeeds gets a scenario of its own: Reset(load), the call with a full projection
+      std::vector<Op> raising, succeeding;
       for (const Op& op : ops)
       {
-        if (cap > 0 && transitions >= cap)
+        std::unique_ptr<World> w = startScenario(cfg.directed, false, false, &hist);
+        w->logging = false;
+        w->exec(op);
+        (w->lastRaised ? raising : succeeding).push_back(op);
+      }
+      if (cap > 0 && transitions >= cap)
+      {
+        truncated = true;
+        states = static_cast<long>(seen.size());
+        return transitions;
+      }
+      if (!raising.empty())
+      {
+        std::unique_ptr<World> w = startScenario(cfg.directed, true, false, &hist);
+        std::string before = canonical(*w);
+        w->lightOnRaise = true;
+        for (const Op& op : raising)
         {
-          truncated = true;
-          states = static_cast<long>(seen.size());
-          return transitions;
+          w->exec(op);
+          ++transitions;
+          if (!w->lastRaised || canonical(*w) != before) break; // not what the dry run saw: the validator will object
         }
-        std::unique_ptr<World> w = startScenario(cfg.directed, true, false);
-        if (!hist.empty())
-        {
-          replaySilently(*w, hist);
-          w->full = false;
-          w->emitLoad();
-          w->full = true;
-        }
+        w->flushBatch();
+      }
+      for (const Op& op : succeeding)
+      {
+        std::unique_ptr<World> w = startScenario(cfg.directed, true, false, &hist);
         std::vector<Op> h2 = hist;
         w->exec(op);
+        ++transitions;
         h2.push_back(op);
         normalize(*w, cfg, &h2);
-        ++transitions;
         std::string key = canonical(*w);
         if (seen.insert(key).second && d + 1 < depth) next.push_back(h2);
       }
